@@ -178,6 +178,7 @@ class _ArraySizeInferInstance(DefaultVisitor):
     gensym: Gensym
     _uf_changes: int
     _cond_depth: int
+    _returned_early: bool
     _callee_ret: dict[FuncDef, ArraySizeBound]
     _ctx_use_cache: ContextUseAnalysis | None
 
@@ -196,6 +197,9 @@ class _ArraySizeInferInstance(DefaultVisitor):
         # Nesting depth in conditionally-executed regions (if / loop
         # bodies); only depth-0 asserts hold on every execution.
         self._cond_depth = 0
+        # Set once a `return` nested in a branch or loop has been walked:
+        # statements after it no longer run on every execution either.
+        self._returned_early = False
         self._callee_ret = {}
         self._ctx_use_cache = None
 
@@ -207,6 +211,14 @@ class _ArraySizeInferInstance(DefaultVisitor):
             yield
         finally:
             self._cond_depth -= 1
+
+    def _unconditional(self) -> bool:
+        """Does the code being walked run on *every* execution that
+        completes?  Not inside a branch or loop body, and not after a
+        conditional early ``return`` either: an execution that left through
+        it never reaches a later strict ``zip`` or ``assert``, so those may
+        not constrain the inputs' sizes globally."""
+        return self._cond_depth == 0 and not self._returned_early
 
     def _fresh_size(self) -> NamedId:
         """Mint a fresh size variable (only ever for arguments / free
@@ -443,10 +455,10 @@ class _ArraySizeInferInstance(DefaultVisitor):
                 elif concretes:
                     # all inputs must equal the concrete length(s)
                     size = next(iter(concretes)) if len(concretes) == 1 else None
-                    if size is not None and self._cond_depth == 0:
+                    if size is not None and self._unconditional():
                         for s in symbols:
                             self._pin_size(s, size)
-                elif self._cond_depth == 0:
+                elif self._unconditional():
                     # all symbolic: strict zip proves them equal
                     rep = symbols[0]
                     for s in symbols[1:]:
@@ -821,6 +833,8 @@ class _ArraySizeInferInstance(DefaultVisitor):
 
     def _visit_return(self, stmt: ReturnStmt, ctx: None):
         ret_size = self._visit_expr(stmt.expr, ctx)
+        if self._cond_depth > 0:
+            self._returned_early = True
         if not isinstance(ret_size, ListSize):
             return
         # Across multiple returns, unify: concrete iff all paths agree.
@@ -833,7 +847,7 @@ class _ArraySizeInferInstance(DefaultVisitor):
         self._visit_expr(stmt.test, ctx)
         # Only an *unconditional* assert holds on every execution, so only
         # then may it constrain sizes globally (cf. strict ``zip``).
-        if self._cond_depth == 0:
+        if self._unconditional():
             self._seed_from_assert(stmt.test)
 
     def _seed_from_assert(self, test: Expr):
